@@ -49,6 +49,11 @@ def run(P, R, tier):
         cv = cone(du, v, r, interproc=False)
         R.check(cw.calls_any("bincount") and any(x.endswith("sum") for x in cw.calls), "DEP.weights", f.key, f"weights = {src(w)}", "assigned fraction: count / total", "cluster weights are not the fraction of samples assigned to each cluster", r.lineno)
         R.check(cv.calls_any("bincount"), "DEP.variances", f.key, f"variances = {src(v)}", "normalised by the cluster count", "cluster variances are not normalised by the cluster count", r.lineno)
+        # "the fractions of samples assigned to each cluster": the counts that enter the weights are the counts as counted - a
+        # clamped / floored count (a phantom sample for an empty cluster) is not a number of assigned samples
+        clamps = [x for x in cw.nodes if isinstance(x, ast.Call) and (x.func.attr if isinstance(x.func, ast.Attribute) else getattr(x.func, "id", "")) in ("maximum", "minimum", "clip", "fmax", "fmin", "where", "nan_to_num")]
+        clamps = [x for x in clamps if any(isinstance(y, ast.Call) and (y.func.attr if isinstance(y.func, ast.Attribute) else "") == "bincount" for y in cone(du, x, du.stmt_of(x), interproc=False).nodes)]
+        R.check(not clamps, "DEP.weights-exact", f.key, f"weights = {src(w)}", "the counts as counted", f"the counts that enter the weights pass through `{src(clamps[0])[:50] if clamps else ''}`: an empty cluster is given a phantom sample, so the weights are no longer the fractions of samples assigned (the other clusters' weights shrink and an empty cluster gets a positive weight)", r.lineno)
     check_reduce_cover(P, R)
     check_accumulator_allocation(P, R)
     from .C06 import check_cluster_masks
@@ -153,6 +158,10 @@ def _rest(P, R):
             R.check(copied, "OWN.means-copy", g.key, src(st)[:70], "deep copy of the centroids", "the GMM means alias the k-means machine's centroid array", st.lineno)
             c = cone(gdu, v, gdu.stmt_of(st), interproc=False)
             R.check(any(n in {d.var for d in c.defs} for n in km_names), "DEP.init", g.key, "means from the fitted k-means machine", "", "GMM means do not come from the fitted k-means machine", st.lineno)
+            # "starts from exactly these centroids": a copy, not a conversion - no dtype taken from elsewhere, no arithmetic
+            conv = [x for x in ast.walk(v) if isinstance(x, ast.Call) and (any(kw.arg == "dtype" and src(kw.value) not in ("float", "np.float64", "numpy.float64", "np.double", "'float64'", "'float'", "'f8'") for kw in x.keywords) or (isinstance(x.func, ast.Attribute) and x.func.attr in ("astype", "round", "around", "rint", "floor", "ceil", "clip") ))]
+            arith = [x for x in ast.walk(v) if isinstance(x, (ast.BinOp, ast.UnaryOp))]
+            R.check(not conv and not arith, "DEP.init-exact", g.key, f"means = {src(v)[:60]}", "the centroids, copied unchanged", f"the initial means are the centroids passed through `{src((conv or arith or [v])[0])[:50]}`: converted to another dtype (the data's: integer-typed or float32 samples) or recomputed, they are no longer exactly the centroids the k-means machine reports", st.lineno)
         if isinstance(t, ast.Attribute) and t.attr in ("variances", "weights") and isinstance(v, ast.Call) and isinstance(v.func, ast.Attribute) and v.func.attr == "get_variances_and_weights_for_each_cluster":
             same_machine = isinstance(v.func.value, ast.Name) and v.func.value.id in km_names
             same_data = len(v.args) == 1 and isinstance(v.args[0], ast.Name) and v.args[0].id == g.value_params[0]
@@ -179,7 +188,7 @@ def _rest(P, R):
     R.floor("DEP.init-exact stores", n_vw, 2)
     from ..engines import dtype as _dt
     n_dt = _dt.check_function(P, R, "kmeans:accumulate_indices_means_vars", raw_params=("data",))
-    n_dt += _dt.check_function(P, R, "kmeans:get_centroids_distance", raw_params=("x",))
+    n_dt += _dt.check_function(P, R, "kmeans:get_centroids_distance", raw_params=("x", "means"))  # "for any centroids and samples": both are the caller's arrays (D14)
     R.floor("DTYPE.raw sites (k-means moments)", n_dt, 2)
     from ..engines import traps as _traps
     _traps.check(P, R, ['kmeans', 'gmm'], scope='(kmeans:|gmm:GMMMachine\\.initialize_gaussians)')
